@@ -79,6 +79,16 @@ Theorem C07_same_tree_same_result : forall s s' d, json_text s d -> json_text s'
 Proof. exact same_tree_same_result_now. Qed.
 Print Assumptions C07_same_tree_same_result.
 
+(* names spelled with escapes are covered by the theorem above: json_text relates a text to the tree with DECODED
+   member names (raw_key), so two spellings of one name are two texts of one tree.  A concrete instance, by
+   computation through the reference recogniser (ref_json s = Some d <-> json_text s d): the name "a" followed by
+   U+1F600, once with a \u0061 escape and a surrogate-pair escape, once raw *)
+Example C07_escaped_names_same_tree :
+  let s1 := [123%N; 34%N; 92%N; 117%N; 48%N; 48%N; 54%N; 49%N; 92%N; 117%N; 100%N; 56%N; 51%N; 100%N; 92%N; 117%N; 100%N; 101%N; 48%N; 48%N; 34%N; 58%N; 49%N; 125%N] in
+  let s2 := [123%N; 34%N; 97%N; 128512%N; 34%N; 58%N; 49%N; 125%N] in
+  ref_json s1 = ref_json s2 /\ ref_json s1 <> None /\ from_str_m cfg_now s1 = from_str_m cfg_now s2.
+Proof. vm_compute. repeat split; discriminate. Qed.
+
 (* a tree-level theorem lifted to texts: member order *)
 Theorem C07_text_member_order : forall s s' m m' sh, json_text s (JObj m) -> json_text s' (JObj m') ->
   Permutation m m' -> NoDup (map fst m) -> jdepth (JObj m) <= 256 -> jdepth (JObj m') <= 256 ->
